@@ -990,7 +990,7 @@ func init() {
 			e.run.noteStub("regexp (native on concrete pattern and subject)")
 			re, err := regexp.Compile(concStr(e, a[0]))
 			if err != nil {
-				return Tuple{(*Value)(nil), e.newError(err.Error())}
+				return Tuple{(*Value)(nil), e.syntaxError(err)}
 			}
 			var o Value = &nativeRe{re}
 			return Tuple{&o, Iface{}}
@@ -1119,6 +1119,7 @@ func init() {
 	})
 	registerEnvStubs()
 	registerCtxStubs()
+	registerSyncMap()
 	registerRefStubs()
 }
 
